@@ -210,7 +210,9 @@ def chk_deep(lst):
 
 
 HIST_ALPHA = ["m/0/1/2/3/4", "m/0/1/2/3/4/5", "m/0/1/2/3/4/6", "m/0/1/2/3/4/x", "m/0/1/2/3/4//6", "m/0/1/2/3/4/-1",
-              "m/0/1/2/3", "m/0/1'/2", "m/0/1/2/3/4/5/6", "m/0/1/2/3/5", "m/0/1/2/3/4/5'", "M/0/1/2/3/4/5"]
+              "m/0/1/2/3", "m/0/1'/2", "m/0/1/2/3/4/5/6", "m/0/1/2/3/5", "m/0/1/2/3/4/5'", "M/0/1/2/3/4/5",
+              # requests that fail HALF-WAY (an inner component out of range), and their well-formed neighbours
+              "m/0/2", "m/0/4294967296/2", "m/0/4294967296/3", "m/0/1/4294967296'/4", "m/0/4294967296/2"]
 
 
 class ByPathHistories:
